@@ -97,6 +97,29 @@ func fieldcontract_Methods_Size(in protoiface.SizeInput) (out protoiface.SizeOut
 // trusted for a message that has just been sized.
 func fieldcontract_Methods_Marshal(in protoiface.MarshalInput) (out protoiface.MarshalOutput, err error) {
 	requires(imp(in.Flags&protoiface.MarshalUseCachedSize != 0, specSized(in.Message)))
+	// a marshaler appends: on success the output is at least as long as the buffer it was given
+	ensures(imp(err == nil, len(out.Buf) >= len(in.Buf)))
+	return
+}
+
+// The reflection marshaler: body not verified here (protoreflect); it appends.
+//
+// @ trusted
+func contract_MarshalOptions_marshalMessageSlow(o MarshalOptions, b []byte, m protoreflect.Message) (r []byte, err error) {
+	modifiesAll()
+	ensuresTrusted(imp(err == nil, len(r) >= len(b)))
+	return
+}
+
+// marshalMessage is marshal without the output structure.
+//
+// @ props C04 C08
+// @ mode int
+// @ nopanic
+func contract_MarshalOptions_marshalMessage(o MarshalOptions, b []byte, m protoreflect.Message) (r []byte, err error) {
+	domain(!o.UseCachedSize)
+	modifiesAll()
+	ensures(imp(err == nil, len(r) >= len(b)))
 	return
 }
 
@@ -118,6 +141,7 @@ func contract_MarshalOptions_marshal(o MarshalOptions, b []byte, m protoreflect.
 	domain(!o.UseCachedSize) // callers setting the deprecated option take over the obligation themselves
 	modifiesAll()
 	ensures(imp(err == nil && !o.AllowPartial, specInitVerdict(err)))
+	ensures(imp(err == nil, len(out.Buf) >= len(b)))
 	return
 }
 
